@@ -332,27 +332,22 @@ func baseRawSet(L *LState) int {
 
 func baseSelect(L *LState) int {
 	L.CheckTypes(1, LTNumber, LTString)
-	switch lv := L.Get(1).(type) {
-	case LNumber:
-		idx := int(lv)
-		num := L.GetTop()
-		if idx < 0 {
-			idx = num + idx
-		} else if idx > num {
-			idx = num
-		}
-		if 1 > idx {
-			L.ArgError(1, "index out of range")
-		}
-		return num - idx
-	case LString:
-		if string(lv) != "#" {
-			L.ArgError(1, "invalid string '"+string(lv)+"'")
-		}
+	if lv, ok := L.Get(1).(LString); ok && len(lv) > 0 && lv[0] == '#' {
 		L.Push(LNumber(L.GetTop() - 1))
 		return 1
 	}
-	return 0
+	// a numeric string selects like the number it denotes
+	idx := int(L.CheckNumber(1))
+	num := L.GetTop()
+	if idx < 0 {
+		idx = num + idx
+	} else if idx > num {
+		idx = num
+	}
+	if 1 > idx {
+		L.ArgError(1, "index out of range")
+	}
+	return num - idx
 }
 
 func baseSetFEnv(L *LState) int {
